@@ -86,9 +86,15 @@ def compare(c, impl, model):
     ids = e2e.Ids(c)
     if len(tours) != len(s['tours']):
         return 'writer model: %d tours, document: %d' % (len(tours), len(s['tours']))
+    skipped = False
     for k, (mt, dt) in enumerate(zip(tours, s['tours'])):
         if not mt:
             continue                      # the tour cannot be rebuilt: reported by the oracle (RNoReplay)
+        if any(a.get('type') == 'reload' for st in dt['stops'] for a in st['activities']):
+            # Model/Writer.v has no reload intervals (loads are reset at a reload): such tours are covered by the independent
+            # replay (oracle_model: replay_viol with Spec/Intervals.v loads) only, not by the writer-model correspondence
+            skipped = True
+            continue
         mstops, mstat = _norm(mt[0])
         dstops, dstat = _norm(_enc_doc_tour(ids, dt))
         if mstat != dstat:
@@ -98,7 +104,7 @@ def compare(c, impl, model):
                 if a != b:
                     return 'tour %d stop %d: writer model %s, document %s' % (k, i, a, b)
             return 'tour %d: writer model has %d stops, document %d' % (k, len(mstops), len(dstops))
-    if _norm(total) != _stat(s['statistic']):
+    if not skipped and _norm(total) != _stat(s['statistic']):
         return 'total statistic: model sum %s, document %s' % (total, _stat(s['statistic']))
     return None
 
